@@ -330,77 +330,4 @@ theorem reinit_encode {cfg : Cfg} (hc : CfgOk cfg) (t : Tree) (hinv : TreeInv cf
   simp only [hA, hM, hB, walkNode_pids] at hreach ⊢
   simp only [hreach, Bool.false_eq_true, if_false, hE1, hE2, hchase, hlenF]
 
-/-! ## room in the buffer -/
-
-/-- the pages in use fit the mapped data, the data fits the buffer / file behind its padding -/
-def AllocFits (cfg : Cfg) (a : Alloc) : Prop :=
-  a.nextPage * cfg.pageSize ≤ a.dataLen ∧ a.dataLen + 8 ≤ a.curSz
-
-theorem w_add (a b : Nat) : w a + w b = w (a + b) := by unfold w; rw [BitVec.ofNat_add]
-
-theorem w_sub {a b : Nat} (h : b ≤ a) (ha : a < 2 ^ 64) : w a - w b = w (a - b) := by
-  apply BitVec.eq_of_toNat_eq
-  rw [BitVec.toNat_sub, w_toNat ha, w_toNat (by omega), w_toNat (by omega)]
-  omega
-
-theorem bufAllocate_fits (a : Alloc) (n : Nat) (h : a.dataLen + 8 ≤ a.curSz) (hb : a.curSz < 2 ^ 61) (hn : n < 2 ^ 61) :
-    (bufAllocate a n).dataLen = a.dataLen + n ∧ (bufAllocate a n).dataLen + 8 ≤ (bufAllocate a n).curSz ∧
-    (bufAllocate a n).nextPage = a.nextPage := by
-  refine ⟨rfl, ?_, rfl⟩
-  unfold bufAllocate
-  dsimp only
-  unfold growNotNeeded
-  rw [w_add, w_slt (by omega) (by omega)]
-  by_cases h1 : a.dataLen + 8 + n < a.curSz
-  · simp only [h1, decide_true, if_true]; omega
-  · simp only [h1, decide_false, Bool.false_eq_true, if_false]
-    unfold growBy growCapped growAtLeast
-    rw [w_add]
-    have h30 : (1073741824#64 : BitVec 64) = w 1073741824 := rfl
-    rw [h30, w_slt (by omega) (by omega)]
-    by_cases h2 : 1073741824 < a.curSz + n
-    · simp only [h2, decide_true, if_true]
-      have h30' : (1 <<< 30 : Nat) = 1073741824 := by decide
-      rw [h30', w_slt (by omega) (by omega)]
-      by_cases h3 : 1073741824 < n
-      · simp only [h3, decide_true, if_true]; rw [w_toNat (by omega)]; omega
-      · simp only [h3, decide_false, Bool.false_eq_true, if_false]; rw [w_toNat (by omega)]; omega
-    · simp only [h2, decide_false, Bool.false_eq_true, if_false]
-      rw [w_slt (by omega) (by omega)]
-      have h3 : ¬ (a.curSz + n < n) := by omega
-      simp only [h3, decide_false, Bool.false_eq_true, if_false]
-      rw [w_toNat (by omega)]; omega
-
-/-- `newNode` grows the buffer before it hands out the frontier page: the pages in use keep
-fitting the data, and the data keeps fitting the buffer. -/
-theorem newNode_fits (cfg : Cfg) (a : Alloc) (h : AllocFits cfg a) (hb1 : a.curSz < 2 ^ 61)
-    (hb2 : (a.nextPage + 1) * cfg.pageSize < 2 ^ 61) : AllocFits cfg (newNode cfg a).2 := by
-  unfold newNode
-  dsimp only
-  split
-  · split <;> exact h
-  · dsimp only
-    unfold newNodeReqSize newNodeOffset
-    rw [w_mul, w_add]
-    have hreq : a.nextPage * cfg.pageSize + cfg.pageSize = (a.nextPage + 1) * cfg.pageSize := by
-      rw [Nat.add_mul]; omega
-    rw [growNeeded_eq_fast, growAmount_eq_fast]
-    unfold growNeededFast growAmountFast
-    have hd : a.dataLen < 2 ^ 61 := by have := h.2; omega
-    rw [w_slt (by omega) (by omega)]
-    by_cases hg : a.dataLen < a.nextPage * cfg.pageSize + cfg.pageSize
-    · simp only [hg, decide_true, if_true]
-      rw [w_sub (by omega) (by omega), w_toNat (by omega)]
-      obtain ⟨b1, b2, b3⟩ := bufAllocate_fits { a with nextPage := a.nextPage + 1 }
-        (a.nextPage * cfg.pageSize + cfg.pageSize - a.dataLen) h.2 hb1 (by omega)
-      refine ⟨?_, b2⟩
-      rw [b3, b1]; simp only; omega
-    · simp only [hg, decide_false, Bool.false_eq_true, if_false]
-      exact ⟨by simp only; omega, h.2⟩
-
-
-theorem AllocFits.fileOk_fits {cfg : Cfg} {a : Alloc} (h : AllocFits cfg a) :
-    a.nextPage * cfg.pageSize ≤ a.curSz - 8 := by
-  have := h.1; have := h.2; omega
-
 end RV.Tree
